@@ -9,6 +9,9 @@ CHECKS = {
  "C04": ("model_checking", "TLC checks the retention invariants and leave/flag action properties on spec/StoreMC.tla exhaustively and exports its complete transition relation; every (state, event) pair is replayed on the real EventCache from a really reached state, and seeded random histories are validated step by step against spec/StoreTrace.tla.", "Trusted: TLC, concretiser. Exhaustive only inside the 26-event universe and capacities 1..3 (4 thorough); random histories beyond.", "TLA+ spec + TLC exhaustive model checking, graph-guided replay of the exported relation, trace validation"),
  "C05": ("model_checking", "Same Store specification; deletion / isolation action properties checked by TLC, the exported relation replayed through CacheHandler messages, deletion-heavy two- and three-author histories validated against StoreTrace.", "Trusted: TLC, concretiser. Address references only to addressable events, no self-referencing deletion requests.", "TLA+ spec + TLC exhaustive model checking, graph-guided replay through the handler, trace validation"),
  "C06": ("model_checking", "SqlStore.tla (rows, id/address tombstones) model-checked by TLC (SqlMC); every exported transition replayed on real SQLite and probe queries judged by TLC (AnswerOK); random batch histories validated against SqlTrace with full listings and random filter lists; all seven fields compared.", "64-bit key collisions assumed away; d-less addressable events not generated; TLC, concretiser trusted.", "TLA+ spec + TLC model checking, graph-guided replay on real SQLite, trace validation"),
+ "C10": ("exploration", "Structured inputs are enumerated by TLC from Wire.tla (all client message shapes, single-point corruptions, server value classes); each text, byte-level mutations of it, generator-built values and hostile shapes are decoded as all 14 types and by ParseClientMsg under recover: no panic, success => filled, decode-encode-decode stable, values round-trip.", "'all byte strings' is sampled inside model-defined classes: model-based generation, not coverage-guided fuzzing; bare null not claimed.", "TLA+ grammar model as exhaustive case generator (TLC), replay on the real codec"),
+ "C11": ("model_checking", "Wire.tla assigns every syntactic position of the 5 client message types a status ok/bad/open; TLC enumerates baselines, ok variants, whitespace placements and every single-point corruption (thorough: pairs) with the verdict; each case is rendered as JSON and judged by ParseClientMsg + ValidClientMsg; accepted messages are additionally checked for soundness.", "The rendering of abstract statuses to JSON text is trusted; positions the property does not claim are open.", "TLA+ decision model enumerated exhaustively by TLC, each case replayed on the real gate"),
+ "C12": ("model_checking", "Gate.tla (reader/handler/writer processes over unbuffered channels) model-checked incl. liveness for all frame sequences up to 3 over 13 frame classes; every sequence plus long seeded sequences sent over real WebSocket connections to NewRelay(recordingHandler) with really signed events; recorded sessions validated by TLC against GateOK.", "Rate limit configured away; attribution of client frames to handler emissions by deep equality with the logged emission.", "TLA+ process model + TLC (safety and liveness), TLC-generated frame sequences replayed over real sockets, trace validation"),
  "C14": ("fault_enumeration", "SqlTx.tla models one batch at statement grain with a fault at every statement index; TLC checks Atomic / Refines / Idempotent and exports every (history, batch, failAt); the cases are executed on real SQLite through a fault-injecting database/sql driver, incl. retry, re-insertion, close/reopen of a file database, and validated against SqlTrace.", "SQLite's journal is trusted; a failing statement = driver error before execution; power-loss crash points not simulated.", "TLA+ statement-grain spec + TLC, fault injection at every TLC-enumerated statement index, trace validation"),
  "C16": ("model_checking", "Complete output sequences of pipelined random sessions on CacheHandler and SQLiteHandler are validated by TLC against HandlerTrace (reply protocol over Store / SqlStore with silent background insertion); dump/restore states judged against the original listing.", "COUNT values unconstrained; TLC, concretiser trusted.", "TLA+ trace specification of the reply protocol validated by TLC (depth-first), dump/restore via FindTrace"),
 }
